@@ -502,10 +502,25 @@ def gen_datetime(rng, year2, wild=False):
     return dt.datetime(y, m, d, h, mi, sec, usec)
 
 
+META = set(".+*?^$()[]{}|\\")
+CLS_META = set("^]\\-[")
+
+
+def plain(r):
+    """mirror of Template.URegex.plain: the regex source means what its literal reading says.  typhon joins value
+    lists with '|' WITHOUT re.escape, so a word containing a metacharacter is a regex (outside the claim)."""
+    if r[0] == "A":
+        return not any(set(w) & META for w in r[1])
+    if r[0] == "C":
+        return bool(r[1]) and all(ord(a) <= ord(b) and a not in CLS_META and b not in CLS_META for a, b in r[1])
+    return True
+
+
 def gen_regex(rng):
     k = rng.choice(["A", "A", "A1", "D", "P", "P", "Z", "C", "C"])
     alpha = "abcdefgmnopst"
-    word = lambda: "".join(rng.choice(alpha + "0189") for _ in range(rng.randint(1, 5)))
+    extra = rng.choice(["", "", "-_", "-_", "-_.", ".", "+", "?", "*", "(", "[a", "^", "$"])   # '.', … : a word becomes a regex
+    word = lambda: "".join(rng.choice(alpha + "0189" + extra) for _ in range(rng.randint(1, 5)))
     if k == "A":
         ws = [word() for _ in range(rng.randint(2, 4))]
         if rng.random() < 0.3:                        # one word a proper prefix of another
@@ -517,7 +532,9 @@ def gen_regex(rng):
         return ["D", rng.randint(1, 4)]
     if k in "PZ":
         return [k]
-    rs = rng.choice([[["a", "z"]], [["a", "z"], ["0", "9"]], [["A", "Z"]], [["a", "f"], ["_", "_"]], [["0", "9"]]])
+    rs = rng.choice([[["a", "z"]], [["a", "z"], ["0", "9"]], [["A", "Z"]], [["a", "f"], ["_", "_"]], [["0", "9"]],
+                     [["a", "z"], [".", "."]], [["a", "c"], ["_", "_"], [".", "."]],
+                     [["^", "^"], ["a", "a"]], [["a", "z"], ["-", "-"]], [["z", "a"]]])   # last three: not plain
     return ["C", rs, rng.choice(["+", "+", "*", rng.randint(1, 3)])]
 
 
@@ -530,7 +547,7 @@ def gen_value(rng, r, wild=False):
         lo = 1 if r[0] == "P" else 0
         alpha = "abcNOAA0123456789" + ("._-" if wild else "")
         return "".join(rng.choice(alpha) for _ in range(rng.randint(lo, 6)))
-    chars = [chr(c) for a, b in r[1] for c in range(ord(a), ord(b) + 1)]
+    chars = [chr(c) for a, b in r[1] for c in range(ord(a), ord(b) + 1)] or ["a"]
     n = r[2] if isinstance(r[2], int) else rng.randint(1 if r[2] == "+" else 0, 5)
     return "".join(rng.choice(chars) for _ in range(n))
 
@@ -709,6 +726,11 @@ def gen_case(rng, stream):
     case = {"toks": toks, "env": env, "env_as_list": rng.random() < 0.3, "s": us(s), "e": us(e), "fill": fill,
             "mode": mode, "tc": tc, "handler": handler, "names": [], "stream": stream,
             "unambiguous": unamb and not special_lit and not any(t[0] == "S" for t in toks)}
+    if any(not plain(r) for r in env.values()):
+        # out of the claim: judged by the oracle only (real code vs Python's re semantics: an accepted name must
+        # re-instantiate the template), never against the literal reading of the model
+        case["nonplain"] = True
+        case["unambiguous"] = False
     if special_lit and any(c in "([?|" for t in toks if t[0] == "L" for c in t[1]):
         case["format_only"] = True                    # regex-active literal: outside the matcher fragment
     if rng.random() < 0.12:
@@ -741,6 +763,8 @@ def mutate_names(rng, case, name):
     out = []
     toks = case["toks"]
     fixed_only = all(t[0] in "LTE" or (t[0] == "U" and fixed_width(case["env"].get(t[1], ["P"]))) for t in toks)
+    if case.get("nonplain"):
+        fixed_only = False                     # a word with a metacharacter is a regex: its width is not fixed
     if fixed_only:
         # only a well-formed name (every field at its nominal width, e.g. no 3-digit year) has a known length
         def _w(t):
@@ -845,6 +869,11 @@ def check_oracle(ck, case, real):
     bad = case.get("_definitely_bad", [])
     for r in real["names"][1:]:
         if r["name"] in bad:
+            if case.get("nonplain"):
+                # outside the claim the regex itself may be invalid (re.error): any rejection is fine
+                if r["parse"][0] != "err" or (case["mode"] in ("f", "b") and r["info"][0] != "err"):
+                    viol(f"not-rejected: {r['name']!r} gave {r['parse']} / {r['info']} for template {tpl_str(case['toks'])!r}")
+                continue
             if r["parse"] != ("err", "valueError"):
                 viol(f"not-rejected: parse_filename({r['name']!r}) gave {r['parse']} for template {tpl_str(case['toks'])!r}")
             if case["mode"] in ("f", "b") and r["info"] != ("err", "valueError"):
@@ -959,6 +988,9 @@ def run_batch(ck, cases, use_model=True):
             continue
         if canon_fmt(model["fmt"]) != canon_fmt(real["fmt"]):
             disagree(f"get_filename: model {model['fmt']} vs code {real['fmt']}", slim)
+            continue
+        if case.get("nonplain"):
+            ck.count("out-of-claim/regex-metacharacter-in-value-list-or-class")
             continue
         for rm, rr in zip(model["names"], real["names"]):
             rm, rr = canon(rm), canon(rr)
